@@ -562,6 +562,9 @@ impl Model {
                         let value_ok = matches!(after_e, Some(d) if d.value == *value && d.flags == *flags);
                         let clause = if flush_pending && value_ok {
                             "store-after-flush-affected"
+                        } else if value_ok {
+                            // value and flags are the sent ones, the recorded life is not now + ttl
+                            "stored-expiry"
                         } else if *kind == StoreKind::Set {
                             "stored-exactly"
                         } else {
